@@ -417,16 +417,39 @@ def write_if_changed(path, text):
     return True
 
 
+PLACEHOLDER_RUST = {"magic": [], "magic_str": "", "formats": [], "ascii_printable": [], "flags_base": 0, "zstd_mask": 0,
+                    "magic_len": 0, "format_len": 0, "flags_len": 0, "header_len_stated": None}
+PLACEHOLDER_PY = {"magic": [], "formats": [], "ascii_printable": []}
+FAILED_NOTE = ("(* THE SCAN FAILED CLOSED on this run: the constants below are placeholders on which every theorem about\n"
+               "   them fails (nothing is proved from constants of an earlier run). *)\n")
+
+
 def regenerate(repo, coq_dir):
-    """Writes coq/gen/EnvelopeRust.v and coq/gen/EnvelopePy.v; returns ([paths], info) with the constants."""
-    rust = scan(repo)
-    py = read_python()
-    if rust["magic_len"] >= 5000 or len(rust["magic"]) >= 5000:
-        raise TranslatorError("unreasonable magic length")
+    """Writes coq/gen/EnvelopeRust.v and coq/gen/EnvelopePy.v; returns ([paths], info) with the constants.
+    Fail closed: when header.rs has a shape the scanner does not recognise (or hugr.envelope cannot be
+    imported / holds something else than expected) the file is rewritten with EMPTY placeholder constants, on
+    which the constants theorems of proofs/EnvelopeRustP.v do not hold, and info[...]["error"] says why;
+    extra() of harness/props/c09.py reports it.  The files always exist and always compile, so that the build
+    of other properties is never disturbed."""
+    info = {}
+    try:
+        rust = scan(repo)
+        if rust["magic_len"] >= 5000 or len(rust["magic"]) >= 5000:
+            raise TranslatorError("unreasonable magic length")
+        text = render_rust(rust)
+    except TranslatorError as e:
+        rust = dict(PLACEHOLDER_RUST, error=str(e))
+        text = FAILED_NOTE + render_rust(rust)
+    try:
+        py = read_python()
+        text_py = render_python(py)
+    except TranslatorError as e:
+        py = dict(PLACEHOLDER_PY, error=str(e))
+        text_py = FAILED_NOTE + render_python(py)
     p1 = os.path.join(coq_dir, "gen", "EnvelopeRust.v")
     p2 = os.path.join(coq_dir, "gen", "EnvelopePy.v")
-    write_if_changed(p1, render_rust(rust))
-    write_if_changed(p2, render_python(py))
+    write_if_changed(p1, text)
+    write_if_changed(p2, text_py)
     return [p1, p2], {"rust": rust, "python": py}
 
 
